@@ -20,6 +20,7 @@ package c27
 import (
 	"bufio"
 	"context"
+	"errors"
 	"fmt"
 	"math/rand"
 	"os"
@@ -56,6 +57,9 @@ type scenario struct {
 	// Warm: requests served (and checkpointed) before the concurrent phase, so that restarts do
 	// not start from an empty state file.
 	Warm int `json:"warm"`
+	// FailSaves: ordinals (0-based, concurrent phase only) of checkpoint writes that fail
+	// with an injected storage error without writing anything; that caller gets the error.
+	FailSaves []int `json:"fail_saves,omitempty"`
 }
 
 func genScenario(rng *rand.Rand, small bool) scenario {
@@ -77,6 +81,12 @@ func genScenario(rng *rand.Rand, small bool) scenario {
 			l = append(l, call{Kind: k, Count: uint64(rng.Intn(4))}) // 0 means "one"
 		}
 		sc.Calls = append(sc.Calls, l)
+	}
+	if rng.Intn(3) == 0 {
+		sc.FailSaves = append(sc.FailSaves, rng.Intn(3))
+		if rng.Intn(2) == 0 {
+			sc.FailSaves = append(sc.FailSaves, 1+rng.Intn(4))
+		}
 	}
 	return sc
 }
@@ -101,7 +111,11 @@ type event struct {
 type yieldStore struct {
 	inner pdstorage.Store
 	rs    *runState
+	fail  map[int]bool
+	n     int // checkpoint writes by workers so far (token scheduling: one caller at a time)
 }
+
+var errInjectedSave = errors.New("injected: checkpoint write failed")
 
 func (s *yieldStore) Load() (pdstorage.Snapshot, error)      { return s.inner.Load() }
 func (s *yieldStore) SaveRegion(m manifest.RegionMeta) error { return s.inner.SaveRegion(m) }
@@ -118,7 +132,18 @@ func (s *yieldStore) SaveAllocatorState(id, ts uint64) error {
 	if w != nil {
 		w.Yield("pd.save.before-write")
 	}
-	err := s.inner.SaveAllocatorState(id, ts)
+	var err error
+	if w != nil {
+		k := s.n
+		s.n++
+		if s.fail[k] {
+			err = errInjectedSave
+			rs.failed.Add(1)
+		}
+	}
+	if err == nil {
+		err = s.inner.SaveAllocatorState(id, ts)
+	}
 	e := event{Kind: "save-end", ID: id, TS: ts}
 	if err != nil {
 		e.Err = err.Error()
@@ -132,18 +157,19 @@ func (s *yieldStore) SaveAllocatorState(id, ts uint64) error {
 }
 
 type runState struct {
-	run   *sched.Run
-	ctr   atomic.Int64
-	mu    sync.Mutex
-	evs   []event
-	dir   string // live PD work dir
-	rdir  string // restart dir
-	rmu   sync.Mutex
-	rst   *pdstorage.LocalStore
-	lastP string
-	lastT uint64
-	lastI uint64
-	perr  []string
+	run    *sched.Run
+	ctr    atomic.Int64
+	mu     sync.Mutex
+	evs    []event
+	dir    string // live PD work dir
+	rdir   string // restart dir
+	rmu    sync.Mutex
+	rst    *pdstorage.LocalStore
+	lastP  string
+	lastT  uint64
+	lastI  uint64
+	perr   []string
+	failed atomic.Int64 // injected checkpoint-write failures
 }
 
 func (rs *runState) log(w int, e event) int64 {
@@ -211,6 +237,7 @@ type runOut struct {
 	probes      int
 	interleaved int
 	states      int
+	injected    int
 	errs        []string
 }
 
@@ -355,7 +382,11 @@ func runOne(st *stores, sc scenario, ch sched.Chooser) runOut {
 	}
 	idStart, tsStart := pdstorage.ResolveAllocatorStarts(1, 1, snap.Allocator)
 	svc := pdserver.NewService(pdcore.NewCluster(), pdcore.NewIDAllocator(idStart), tso.NewAllocator(tsStart))
-	svc.SetStorage(&yieldStore{inner: live, rs: rs})
+	ys := &yieldStore{inner: live, rs: rs, fail: map[int]bool{}}
+	for _, k := range sc.FailSaves {
+		ys.fail[k] = true
+	}
+	svc.SetStorage(ys)
 	r := sched.New(sched.Options{Chooser: ch, MaxSteps: 2000, OnStep: func() { rs.probe(-1) }})
 	rs.run = r
 	do := func(w int, c call) {
@@ -401,6 +432,7 @@ func runOne(st *stores, sc scenario, ch sched.Chooser) runOut {
 	sort.Slice(out.evs, func(a, b int) bool { return out.evs[a].Seq < out.evs[b].Seq })
 	out.viol, out.responses, out.saves, out.overtakes, out.probes, out.interleaved = judge(out.evs)
 	out.errs = append(out.errs, rs.perr...)
+	out.injected = int(rs.failed.Load())
 	return out
 }
 
@@ -431,6 +463,7 @@ func account(c *core.Case, sc scenario, o runOut, local map[uint64]bool, mode st
 	c.Count("checkpoint_overtakes", o.overtakes)
 	c.Count("checkpoints_interleaved_with_requests", o.interleaved)
 	c.Count("restart_probes", o.probes)
+	c.Count("injected_checkpoint_write_failures", o.injected)
 	c.Count("blocked_classifications", o.res.Blocked)
 	c.Max("steps_per_schedule", len(o.res.Trace))
 	c.Max("preemptions_per_schedule", o.res.Preemptions)
@@ -516,7 +549,7 @@ func init() {
 		ID:    "C27",
 		Level: "exploration",
 		Rule: "one case = 2-4 concurrent callers with 1-3 Tso/AllocID requests each (batch 1-3, 0-2 warm-up requests) against pd/server.Service over the real LocalStore behind a yielding Store wrapper " +
-			"(park before and after every checkpoint write); quick 64 cases x 40 PCT(depth 1-3)/random schedules; thorough 160 x 150 plus bounded-preemption DFS (<=3 preemptions, <=2500 runs) on 16 two-caller scripts, plus 16 runs of the real `nokv pd` binary (6 concurrent gRPC callers, SIGKILL after a seeded number of responses, 6 incarnations on one workdir; all ranges returned over all incarnations must be disjoint and per-caller increasing); " +
+			"(park before and after every checkpoint write; in a third of the scripts 1-2 chosen checkpoint writes fail with an injected storage error, nothing written, that caller gets the error); quick 64 cases x 40 PCT(depth 1-3)/random schedules; thorough 160 x 150 plus bounded-preemption DFS (<=3 preemptions, <=2500 runs) on 16 two-caller scripts, plus 16 runs of the real `nokv pd` binary (6 concurrent gRPC callers, SIGKILL after a seeded number of responses, 6 incarnations on one workdir; all ranges returned over all incarnations must be disjoint and per-caller increasing); " +
 			"at every scheduling step, every checkpoint completion and the end the persisted state is copied and a PD restarted from it allocates once; evaluations = executed schedules; " +
 			"distinct/non-trivial = distinct executed (caller,site) sequences in which a checkpoint write of one caller completed while another caller's request was in flight (checkpoint_overtakes = a write that read its counters earlier completed later)",
 		Assumptions: []string{
